@@ -34,6 +34,7 @@ MANIFEST = {
             "Warnings outside the project's flag set are not requested.",
 }
 MANIFEST["text"] += ' Shapes also cover types whose only integers are byte/utf8 and fixed bit arrays next to fixed arrays of other elements; option variants are generated over the output the plain command line left in the same directory; the cetl++14-17 flavour is compiled against a stand-in for the two CETL headers it names.'
+MANIFEST["text"] += ' Further fixed sets: the coverage corpus under configuration files, a float-free set under combined options, structures all of whose fields have zero size.'
 
 
 def strict_flags():
